@@ -103,7 +103,7 @@ type harness struct {
 	wg                         sync.WaitGroup
 	lastSettle                 string
 	lastDump                   string
-	closeSnap                  map[*subscriber]int
+	closeSnaps                 []map[*subscriber]int
 }
 
 func (h *harness) doneCount() int {
@@ -285,24 +285,25 @@ func (h *harness) issue(o op) {
 		h.errs.Go(func() {
 			defer h.wg.Done()
 			h.b.Close()
-			if first {
-				// what each manual subscriber has been handed at the instant Close returned
-				h.mu.Lock()
-				subs := append([]*subscriber(nil), h.subs...)
-				h.mu.Unlock()
-				snap := map[*subscriber]int{}
-				for _, s := range subs {
-					if s.style == "manual" {
-						s.mu.Lock()
-						snap[s] = len(s.received) + len(s.ch)
-						s.mu.Unlock()
-					}
+			// what each manual subscriber has been handed at the instant THIS Close call returned
+			// (every Close call - also one that overlaps another - returns only when nothing more is delivered)
+			h.mu.Lock()
+			subs := append([]*subscriber(nil), h.subs...)
+			h.mu.Unlock()
+			snap := map[*subscriber]int{}
+			for _, s := range subs {
+				if s.style == "manual" {
+					s.mu.Lock()
+					snap[s] = len(s.received) + len(s.ch)
+					s.mu.Unlock()
 				}
-				h.mu.Lock()
-				h.closeReturned = true
-				h.closeSnap = snap
-				h.mu.Unlock()
 			}
+			h.mu.Lock()
+			if first {
+				h.closeReturned = true
+			}
+			h.closeSnaps = append(h.closeSnaps, snap)
+			h.mu.Unlock()
 		})
 	}
 }
@@ -538,14 +539,16 @@ func runBC(t *testing.T, c bcCase) (out outcome, err error) {
 			return
 		}
 		after := count()
-		for i, s := range h.subs {
-			if want, ok := h.closeSnap[s]; ok {
-				s.mu.Lock()
-				have := len(s.received) + len(s.ch)
-				s.mu.Unlock()
-				if have != want {
-					errs.Failf("subscriber s%d had been handed %d values at the instant Close returned and %d afterwards: delivery after Close returned", i, want, have)
-					return
+		for n, snap := range h.closeSnaps {
+			for i, s := range h.subs {
+				if want, ok := snap[s]; ok {
+					s.mu.Lock()
+					have := len(s.received) + len(s.ch)
+					s.mu.Unlock()
+					if have != want {
+						errs.Failf("subscriber s%d had been handed %d values at the instant Close call #%d returned and %d in the end: delivery after Close returned", i, want, n, have)
+						return
+					}
 				}
 			}
 		}
@@ -588,6 +591,12 @@ func genCase(rt *rapid.T) bcCase {
 	c := bcCase{DrainEnd: rapid.Bool().Draw(rt, "drainEnd")}
 	n := rapid.IntRange(1, 30).Draw(rt, "nops")
 	for i := 0; i < n; i++ {
+		if rapid.IntRange(0, 19).Draw(rt, "closeRace") == 0 {
+			// two overlapping Close calls while values are being broadcast: every one of them returns only when nothing more is delivered
+			c.Ops = append(c.Ops, op{Kind: "sub", Style: "manual", Cap: rapid.IntRange(1, 2).Draw(rt, "cap")},
+				op{Kind: "group", Sub: []op{{Kind: "bcast", G: 0, N: rapid.IntRange(1, 6).Draw(rt, "n")}, {Kind: "close"}, {Kind: "bcast", G: 1, N: 2}, {Kind: "close"}}})
+			continue
+		}
 		if rapid.IntRange(0, 4).Draw(rt, "group") == 0 {
 			g := op{Kind: "group"}
 			m := rapid.IntRange(2, 4).Draw(rt, "gn")
